@@ -152,6 +152,10 @@ var c02Servers = []struct {
 	{"retry", func() *quic.Config { return &quic.Config{} }, true},
 	{"v2-preferred", func() *quic.Config { return &quic.Config{Versions: []quic.Version{quic.Version2, quic.Version1}} }, false},
 	{"few-streams", func() *quic.Config { return &quic.Config{MaxIncomingStreams: 2, MaxIncomingUniStreams: 1} }, false},
+	// the server speaks QUIC v2 only: the client's first Initial (v1) is answered with Version
+	// Negotiation and the connection is re-created inside the same Dial
+	{"v2-only", func() *quic.Config { return &quic.Config{Versions: []quic.Version{quic.Version2}} }, false},
+	{"v2-only-retry", func() *quic.Config { return &quic.Config{Versions: []quic.Version{quic.Version2}} }, true},
 }
 
 type c02Config struct {
@@ -235,7 +239,11 @@ func c02Run(t *testing.T, cfg c02Config) c02Outcome {
 				"%s server=%s history=%s: dial #%d %s failed: %v", id, srv.Name, cfg.History, dial, stage, err)
 		}
 		one := func(dial int, dl sim.Dialer, keepOpen bool) {
-			conn, err := dl.Dial(ctx, w.ServerAddr, w.ClientTLS(), &quic.Config{})
+			cconf := &quic.Config{}
+			if strings.HasPrefix(srv.Name, "v2-only") {
+				cconf.Versions = []quic.Version{quic.Version1, quic.Version2}
+			}
+			conn, err := dl.Dial(ctx, w.ServerAddr, w.ClientTLS(), cconf)
 			if err != nil {
 				fail("Dial", dial, err)
 				return
